@@ -80,7 +80,34 @@ fn v(clause: &str, detail: String, node: Addr, t: u64) -> Viol {
 
 pub fn run_case(c: &WCase) -> Outcome {
     let o = Oracles { c02: true, ..Default::default() };
-    run_world_case(c, o, "C10", &["C02"], &|w, out| {
+    // Online measurement of the "stale gossip" history class: while the run goes on, does a survivor that has dropped the
+    // dead player hold, as the newest view some other live peer has sent it, an OLDER last frame of that player than its
+    // own? (Measured from what the simulated network handed over. A run that does not end in a panic goes on until all
+    // gossip has caught up, so the end-of-run measurement alone would miss it - it did, thorough tier, seed 7.)
+    let stale_online: std::cell::RefCell<std::collections::BTreeMap<(Addr, Addr), String>> = Default::default();
+    let mut hook = |core: &mut Core, _ni: usize, t: u64| {
+        let Some(k) = core.scn.kill.clone() else { return };
+        if core.killed_at.is_none() {
+            return;
+        }
+        let dead_addr = peer_addr(k.node);
+        let h = core.scn.peers[k.node][0];
+        let net = core.net.borrow();
+        for x in core.nodes.iter().filter(|n| n.alive && !n.is_spec) {
+            if !x.fin.cs.get(h).is_some_and(|c| c.0) {
+                continue;
+            }
+            let own = net.max_input_frame_delivered.get(&(dead_addr, x.addr)).copied().unwrap_or(-1);
+            for y in core.nodes.iter().filter(|n| n.alive && !n.is_spec && n.addr != x.addr) {
+                if let Some(g) = net.gossip_delivered.get(&(y.addr, x.addr)).and_then(|g| g.get(h)) {
+                    if g.1 < own {
+                        stale_online.borrow_mut().entry((x.addr, y.addr)).or_insert_with(|| format!("at t={} ms node {} (which has dropped the player) holds frame {own} of it, the newest view of node {} delivered to it is ({}, {})", t.saturating_sub(T0) / MS, x.addr, y.addr, g.0, g.1));
+                    }
+                }
+            }
+        }
+    };
+    run_world_case_hook(c, o, "C10", &["C02"], &mut hook, &|w, out| {
         // a request-contract alarm in this workload is a survivor failing to keep running coherently
         for vv in &w.viols {
             if vv.prop == "C02" {
@@ -122,6 +149,7 @@ pub fn run_case(c: &WCase) -> Outcome {
                     }
                 }
             }
+            found.extend(stale_online.borrow().values().cloned());
             if found.is_empty() { None } else { Some(found.join("; ")) }
         });
         if !w.viols.is_empty() {
@@ -159,14 +187,16 @@ pub fn run_case(c: &WCase) -> Outcome {
             }
             return;
         }
+        // ---- offline judgement; whatever it reports is tagged with the measured history class afterwards
+        'judge: {
         let s = &w.scn;
         let Some(tk) = w.killed_at else {
             out.inconclusive("nobody was killed");
-            return;
+            break 'judge;
         };
         if w.nodes.iter().any(|n| n.running_at.is_none_or(|t| t > tk)) {
             out.inconclusive("peer killed before every session was Running");
-            return;
+            break 'judge;
         }
         let victim = s.kill.as_ref().unwrap().node;
         let dead_handles = &s.peers[victim];
@@ -176,12 +206,12 @@ pub fn run_case(c: &WCase) -> Outcome {
             for (h, cs) in n.fin.cs.iter().enumerate() {
                 if cs.0 && !dead_handles.contains(&h) {
                     out.inconclusive("survivors also lost each other (timeout on a lossy link)");
-                    return;
+                    break 'judge;
                 }
             }
             if !dead_handles.iter().all(|h| n.fin.cs[*h].0) {
                 out.inconclusive("a survivor had not yet dropped the dead peer when the run ended");
-                return;
+                break 'judge;
             }
         }
         // differing views at the time of the local disconnect?
@@ -199,7 +229,7 @@ pub fn run_case(c: &WCase) -> Outcome {
             let late = w.frames_between(n.idx, w.end_t.saturating_sub(2500 * MS), w.end_t);
             if n.reached_target_at.is_none() && late < 10 {
                 out.violate(v("a survivor stopped advancing", format!("node {} at frame {} advanced {late} frames in the last 2.5 s (target {})", n.addr, n.game.frame(), s.frames), n.addr, w.end_t));
-                return;
+                break 'judge;
             }
         }
         // agreement on every frame that is settled on all survivors
@@ -218,22 +248,37 @@ pub fn run_case(c: &WCase) -> Outcome {
                             b.addr,
                             w.end_t,
                         ));
-                        return;
+                        break 'judge;
                     }
                 }
                 if a.game.state(f + 1) != b.game.state(f + 1) {
                     out.violate(v("survivors' game states differ", format!("state at frame {}: node {} {:?}, node {} {:?}", f + 1, a.addr, a.game.state(f + 1), b.addr, b.game.state(f + 1)), b.addr, w.end_t));
-                    return;
+                    break 'judge;
                 }
             }
         }
         if finals.iter().any(|x| *x != finals[0]) {
             out.violate(v("survivors did not settle on one common last frame", format!("final cut-offs per survivor {:?}", finals), a.addr, w.end_t));
-            return;
+            break 'judge;
         }
         out.nontrivial = differing && lim > 100;
-        if std::env::var("C10DBG").is_ok() && differing {
-            eprintln!("DBG {} views {:?} finals {:?} lim {} frames {:?} mp {} kill {:?}", c.id, views, finals, lim, survivors.iter().map(|n| n.game.frame()).collect::<Vec<_>>(), s.mp, s.kill);
+        }
+        if let (Verdict::Violated(vs), Some(k)) = (&mut out.verdict, &w.scn.kill) {
+            let dead_addr = peer_addr(k.node);
+            let ls: Vec<i32> = {
+                let net = w.net.borrow();
+                w.nodes.iter().filter(|n| n.alive && !n.is_spec).map(|n| net.max_input_frame_delivered.get(&(dead_addr, n.addr)).copied().unwrap_or(-1)).collect()
+            };
+            let tag = if ls.iter().any(|x| *x != ls[0]) {
+                format!(" [split cut-off: after the death the survivors hold different last frames of the dropped player: {ls:?}]")
+            } else if let Some(sg) = &stale_gossip {
+                format!(" [stale gossip: all survivors hold the same last frame of the dropped player, but an older view of it was the newest one delivered: {sg}]")
+            } else {
+                " [unsplit history: every survivor holds the same last frame of the dropped player and no older view of it was delivered last]".to_string()
+            };
+            for v in vs.iter_mut() {
+                v.detail.push_str(&tag);
+            }
         }
     })
 }
